@@ -201,7 +201,7 @@ class MermaidExporter:
             yield "%s%s%s" % (indent, nodename, node)
 
     def __iter_edges(self, indent, nodenamefunc, edgefunc, filter_, stop):
-        maxlevel = self.maxlevel - 1 if self.maxlevel else None
+        maxlevel = self.maxlevel - 1 if self.maxlevel is not None else None
         for node in PreOrderIter(self.node, filter_=filter_, stop=stop, maxlevel=maxlevel):
             nodename = nodenamefunc(node)
             for child in node.children:
